@@ -1,9 +1,15 @@
 import Revm.Proofs.Arith
 /-! C03 — arithmetic, comparison, bitwise and shift opcodes compute exact 256-bit results.
-Statements only; proofs live in `Revm.Proofs.Arith`. `Model` follows the Rust code, `Spec` is
-unbounded integer arithmetic reduced mod 2^256. -/
+Statements only; proofs live in `Revm.Proofs.Arith`. `Model` follows the Rust code
+(`arithmetic.rs`, `i256.rs`, `bitwise.rs`, `gas::exp_cost`), `Spec` is unbounded integer arithmetic
+reduced mod 2^256 (two's complement for the signed opcodes, 0 on a zero divisor / modulus).
+Operand order is stack order (first argument = top of stack). Static gas (3 / 5 / 8) and the number
+of consumed stack items are compared with the real interpreter by the correspondence stream; the
+only gas *formula* of this group, `exp_cost`, is proved here (`expCost_eq`). -/
 namespace Revm.Props.C03
 open Revm Revm.U256
+
+/-! ## value theorems: `Model.op = Spec.op` for all 256-bit operands -/
 
 theorem add_eq (a b : Nat) : Model.Arith.add a b = Spec.Arith.add a b := rfl
 theorem mul_eq (a b : Nat) : Model.Arith.mul a b = Spec.Arith.mul a b := rfl
@@ -11,7 +17,127 @@ theorem sub_eq (a b : Nat) (ha : a < W) (hb : b < W) : Model.Arith.sub a b = Spe
   Proofs.Arith.sub_eq a b ha hb
 theorem div_eq (a b : Nat) : Model.Arith.div a b = Spec.Arith.div a b := Proofs.Arith.div_eq a b
 theorem mod_eq (a b : Nat) : Model.Arith.rem a b = Spec.Arith.mod a b := Proofs.Arith.mod_eq a b
+/-- SDIV = truncated division of the two's-complement readings (MIN / -1 wraps to MIN) -/
 theorem sdiv_eq (a b : Nat) (ha : a < W) (hb : b < W) : Model.Arith.sdiv a b = Spec.Arith.sdiv a b :=
   Proofs.Arith.sdiv_eq a b ha hb
+/-- SMOD = `Int.tmod` (sign of the dividend) of the two's-complement readings -/
+theorem smod_eq (a b : Nat) (ha : a < W) (hb : b < W) : Model.Arith.smod a b = Spec.Arith.smod a b :=
+  Proofs.Arith.smod_eq a b ha hb
+theorem addmod_eq (a b n : Nat) : Model.Arith.addmod a b n = Spec.Arith.addmod a b n :=
+  Proofs.Arith.addmod_eq a b n
+theorem mulmod_eq (a b n : Nat) : Model.Arith.mulmod a b n = Spec.Arith.mulmod a b n :=
+  Proofs.Arith.mulmod_eq a b n
+/-- EXP: ruint's square-and-multiply loop with wrapping products = `a^b mod 2^256` -/
+theorem exp_eq (a b : Nat) (hb : b < W) : Model.Arith.exp a b = Spec.Arith.exp a b :=
+  Proofs.Arith.exp_eq a b hb
+/-- SIGNEXTEND: the mask construction = signed reading of the low `8(k+1)` bits -/
+theorem signextend_eq (k x : Nat) (hx : x < W) :
+    Model.Arith.signextend k x = Spec.Arith.signextend k x := Proofs.Arith.signextend_eq k x hx
+theorem lt_eq (a b : Nat) : Model.Arith.lt a b = Spec.Arith.lt a b := Proofs.Arith.lt_eq a b
+theorem gt_eq (a b : Nat) : Model.Arith.gt a b = Spec.Arith.gt a b := Proofs.Arith.gt_eq a b
+/-- SLT: `i256_cmp` (sign classes, then unsigned compare) = `<` on the two's-complement readings -/
+theorem slt_eq (a b : Nat) (ha : a < W) (hb : b < W) : Model.Arith.slt a b = Spec.Arith.slt a b :=
+  Proofs.Arith.slt_eq a b ha hb
+theorem sgt_eq (a b : Nat) (ha : a < W) (hb : b < W) : Model.Arith.sgt a b = Spec.Arith.sgt a b :=
+  Proofs.Arith.sgt_eq a b ha hb
+theorem eq_eq (a b : Nat) : Model.Arith.eq a b = Spec.Arith.eq a b := Proofs.Arith.eq_eq a b
+theorem iszero_eq (a : Nat) : Model.Arith.iszero a = Spec.Arith.iszero a := Proofs.Arith.iszero_eq a
+theorem and_eq (a b : Nat) : Model.Arith.bitand a b = Spec.Arith.and a b := Proofs.Arith.and_eq a b
+theorem or_eq (a b : Nat) : Model.Arith.bitor a b = Spec.Arith.or a b := Proofs.Arith.or_eq a b
+theorem xor_eq (a b : Nat) : Model.Arith.bitxor a b = Spec.Arith.xor a b := Proofs.Arith.xor_eq a b
+theorem not_eq (a : Nat) : Model.Arith.bitnot a = Spec.Arith.not a := Proofs.Arith.not_eq a
+/-- what `Spec.not` (= `2^256 - 1 - a`) means bitwise: exactly the low 256 bits are flipped -/
+theorem not_testBit (a : Nat) (ha : a < W) (i : Nat) :
+    (Model.Arith.bitnot a).testBit i = (decide (i < 256) && !a.testBit i) :=
+  Proofs.Arith.not_testBit a ha i
+/-- … and arithmetically: `-a - 1` in two's complement -/
+theorem not_int (a : Nat) (ha : a < W) : Model.Arith.bitnot a = ofInt (-(toInt a) - 1) :=
+  Proofs.Arith.not_int a ha
+/-- BYTE with any 256-bit index (saturated to `usize` in the code) -/
+theorem byte_eq (i x : Nat) : Model.Arith.byte i x = Spec.Arith.byte i x := Proofs.Arith.byte_eq i x
+/-- SHL with any shift amount, including ≥ 256 and ≥ 2^64 -/
+theorem shl_eq (s x : Nat) : Model.Arith.shl s x = Spec.Arith.shl s x := Proofs.Arith.shl_eq s x
+theorem shr_eq (s x : Nat) (hx : x < W) : Model.Arith.shr s x = Spec.Arith.shr s x :=
+  Proofs.Arith.shr_eq s x hx
+/-- SAR: sign-filling shift = floor division of the signed reading by `2^s`, any shift amount -/
+theorem sar_eq (s x : Nat) (hx : x < W) : Model.Arith.sar s x = Spec.Arith.sar s x :=
+  Proofs.Arith.sar_eq s x hx
+
+/-! ## gas of EXP -/
+
+/-- `log2floor` (scan of the four 64-bit limbs with `leading_zeros`) is the position of the top bit -/
+theorem log2floor_eq (v : Nat) (hv : v < W) :
+    Model.Arith.log2floor v = if v = 0 then 0 else v.log2 := Proofs.Arith.log2floor_eq v hv
+/-- `exp_cost` never fails for a 256-bit exponent and equals `10 + (10|50) * byteLen(exponent)` -/
+theorem expCost_eq (sd : Bool) (p : Nat) (hp : p < W) :
+    Model.Arith.expCost sd p = some (Spec.Arith.expCost sd p) := Proofs.Arith.expCost_eq sd p hp
+
+/-! ## every pushed value is again a 256-bit word -/
+
+theorem add_lt (a b : Nat) : Model.Arith.add a b < W := Proofs.Arith.add_lt a b
+theorem mul_lt (a b : Nat) : Model.Arith.mul a b < W := Proofs.Arith.mul_lt a b
+theorem sub_lt (a b : Nat) : Model.Arith.sub a b < W := Proofs.Arith.sub_lt a b
+theorem div_lt (a b : Nat) (ha : a < W) : Model.Arith.div a b < W := Proofs.Arith.div_lt_W a b ha
+theorem mod_lt (a b : Nat) (hb : b < W) : Model.Arith.rem a b < W := Proofs.Arith.mod_lt_W a b hb
+theorem sdiv_lt (a b : Nat) (ha : a < W) (hb : b < W) : Model.Arith.sdiv a b < W :=
+  Proofs.Arith.sdiv_lt a b ha hb
+theorem smod_lt (a b : Nat) (ha : a < W) (hb : b < W) : Model.Arith.smod a b < W :=
+  Proofs.Arith.smod_lt a b ha hb
+theorem addmod_lt (a b n : Nat) (hn : n < W) : Model.Arith.addmod a b n < W :=
+  Proofs.Arith.addmod_lt a b n hn
+theorem mulmod_lt (a b n : Nat) (hn : n < W) : Model.Arith.mulmod a b n < W :=
+  Proofs.Arith.mulmod_lt a b n hn
+theorem exp_lt (a b : Nat) (hb : b < W) : Model.Arith.exp a b < W := Proofs.Arith.exp_lt a b hb
+theorem signextend_lt (k x : Nat) (hx : x < W) : Model.Arith.signextend k x < W :=
+  Proofs.Arith.signextend_lt k x hx
+theorem lt_lt (a b : Nat) : Model.Arith.lt a b < W := Proofs.Arith.lt_lt a b
+theorem gt_lt (a b : Nat) : Model.Arith.gt a b < W := Proofs.Arith.gt_lt a b
+theorem slt_lt (a b : Nat) : Model.Arith.slt a b < W := Proofs.Arith.slt_lt a b
+theorem sgt_lt (a b : Nat) : Model.Arith.sgt a b < W := Proofs.Arith.sgt_lt a b
+theorem eq_lt (a b : Nat) : Model.Arith.eq a b < W := Proofs.Arith.eq_lt a b
+theorem iszero_lt (a : Nat) : Model.Arith.iszero a < W := Proofs.Arith.iszero_lt a
+theorem and_lt (a b : Nat) (ha : a < W) : Model.Arith.bitand a b < W := Proofs.Arith.and_lt a b ha
+theorem or_lt (a b : Nat) (ha : a < W) (hb : b < W) : Model.Arith.bitor a b < W :=
+  Proofs.Arith.or_lt a b ha hb
+theorem xor_lt (a b : Nat) (ha : a < W) (hb : b < W) : Model.Arith.bitxor a b < W :=
+  Proofs.Arith.xor_lt a b ha hb
+theorem not_lt (a : Nat) : Model.Arith.bitnot a < W := Proofs.Arith.not_lt a
+theorem byte_lt (i x : Nat) : Model.Arith.byte i x < W := Proofs.Arith.byte_lt i x
+theorem shl_lt (s x : Nat) : Model.Arith.shl s x < W := Proofs.Arith.shl_lt s x
+theorem shr_lt (s x : Nat) (hx : x < W) : Model.Arith.shr s x < W := Proofs.Arith.shr_lt s x hx
+theorem sar_lt (s x : Nat) (hx : x < W) : Model.Arith.sar s x < W := Proofs.Arith.sar_lt s x hx
+
+/-! ## the hypotheses are satisfiable, and the functions are not trivial: boundary evaluations -/
+
+/-- `-1` as a word -/
+abbrev M1 : Nat := W - 1
+/-- the most negative word -/
+abbrev MIN : Nat := 2^255
+
+example : M1 < W ∧ MIN < W ∧ (0 : Nat) < W ∧ (300 : Nat) < W := by
+  unfold M1 MIN; rw [W_val]; omega
+example : Model.Arith.sub 0 1 = M1 := by decide +kernel
+example : Model.Arith.sdiv MIN M1 = MIN := by decide +kernel
+example : Model.Arith.sdiv (W - 7) 2 = W - 3 := by decide +kernel
+example : Model.Arith.smod (W - 7) 2 = M1 := by decide +kernel
+example : Model.Arith.smod 7 (W - 2) = 1 := by decide +kernel
+example : Model.Arith.exp 3 5 = 243 := by decide +kernel
+example : Model.Arith.exp 2 256 = 0 := by decide +kernel
+example : Model.Arith.exp 2 255 = MIN := by decide +kernel
+example : Model.Arith.signextend 0 0x80 = W - 128 := by decide +kernel
+example : Model.Arith.signextend 0 0x17f = 0x7f := by decide +kernel
+example : Model.Arith.signextend 31 M1 = M1 := by decide +kernel
+example : Model.Arith.slt M1 0 = 1 ∧ Model.Arith.lt M1 0 = 0 := by decide +kernel
+example : Model.Arith.sgt 0 MIN = 1 ∧ Model.Arith.gt 0 MIN = 0 := by decide +kernel
+example : Model.Arith.byte 31 0x1234 = 0x34 ∧ Model.Arith.byte 32 0x1234 = 0 := by decide +kernel
+example : Model.Arith.shl 255 1 = MIN ∧ Model.Arith.shl 256 1 = 0 := by decide +kernel
+example : Model.Arith.shr 255 MIN = 1 ∧ Model.Arith.shr 256 M1 = 0 := by decide +kernel
+example : Model.Arith.sar 1 MIN = 2^255 + 2^254 := by decide +kernel
+example : Model.Arith.sar 255 MIN = M1 ∧ Model.Arith.sar 256 MIN = M1 ∧ Model.Arith.sar M1 MIN = M1 := by
+  decide +kernel
+example : Model.Arith.sar 256 (MIN - 1) = 0 := by decide +kernel
+example : Model.Arith.expCost true 0 = some 10 ∧ Model.Arith.expCost true 255 = some 60 ∧
+    Model.Arith.expCost true 256 = some 110 ∧ Model.Arith.expCost false M1 = some 330 ∧
+    Model.Arith.expCost true M1 = some 1610 := by decide +kernel
 
 end Revm.Props.C03
